@@ -259,6 +259,26 @@ fn replace_call_expr_if_csi_method_with_member(
         //  a) a.substring() -> __datadog_token_$i = a, __datadog_token_$i2 = __datadog_token_$i.substring, __datadog_token_$i2.call(__datadog_token_$i, __datadog_token_$i2)
         //  b) String.prototype.substring.[call|apply](a) -> __datadog_token_$i = a, __datadog_token_$i2 = String.prototype.substring, __datadog_token_$i2.call(__datadog_token_$i, __datadog_token_$i2)
 
+        // a.b.substring.call(c(), 1): reading the member path a.b.substring comes before evaluating c(),
+        // so its assignation goes first. A static X.prototype.method path keeps the historical order.
+        let member_first = member_expr_opt.is_some_and(|member_expr| {
+            !member_expr
+                .obj
+                .as_member()
+                .is_some_and(FunctionPrototypeTransform::member_prop_is_prototype)
+        });
+        let mut ident_member_first = None;
+        if member_first {
+            // __datadog_token_$i = member
+            ident_member_first = ident_provider.get_ident_used_in_assignation(
+                &Expr::Member(member_expr_opt.unwrap().clone()),
+                &mut assignations,
+                &mut arguments,
+                &span,
+                IdentKind::Expr,
+            );
+        }
+
         // __datadog_token_$i = a
         let ident_replacement_option = ident_provider.get_temporal_ident_used_in_assignation(
             expr,
@@ -270,6 +290,7 @@ fn replace_call_expr_if_csi_method_with_member(
         let ident_replacement = ident_replacement_option.map_or_else(|| expr.clone(), Expr::Ident);
 
         let ident_callee = match member_expr_opt {
+            Some(_) if member_first => ident_member_first,
             Some(member_expr) => {
                 // __datadog_token_$i2 = member
                 ident_provider.get_ident_used_in_assignation(
